@@ -21,6 +21,11 @@ def ev3(e, val):
         return ev3(e[4], val)
     if k == 'int':
         return e[1]
+    if k == 'flt':
+        try:
+            return float(e[1])
+        except (TypeError, ValueError):
+            return None
     kk = sx.key(e)
     if kk in val:
         return val[kk]
@@ -51,9 +56,9 @@ def ev3(e, val):
         try:
             return {'<': lambda: int(a < b), '<=': lambda: int(a <= b), '>': lambda: int(a > b), '>=': lambda: int(a >= b),
                     '==': lambda: int(a == b), '!=': lambda: int(a != b), '+': lambda: a + b, '-': lambda: a - b,
-                    '*': lambda: a * b, '/': lambda: int(a / b) if b else None, '%': lambda: (abs(a) % abs(b)) * (1 if a >= 0 else -1) if b else None,
+                    '*': lambda: a * b, '/': lambda: ((a / b) if (isinstance(a, float) or isinstance(b, float)) else int(a / b)) if b else None, '%': lambda: (abs(a) % abs(b)) * (1 if a >= 0 else -1) if b else None,
                     '<<': lambda: a << b, '>>': lambda: a >> b, '&': lambda: a & b, '|': lambda: a | b, '^': lambda: a ^ b}[op]()
-        except (KeyError, ValueError, OverflowError):
+        except (KeyError, ValueError, OverflowError, TypeError, ZeroDivisionError):
             return None
     if k == 'cond':
         c = ev3(e[1], val)
